@@ -13,7 +13,7 @@ import (
 // repository (harness/c15fixture/fix.go.txt -> test/verifjsonfix). Values avoid what encoding/json itself cannot
 // round-trip behind the generated tags: empty-but-non-nil slices and maps under omitempty, ints inside `any`,
 // the field tagged json:"-".
-const c15FixN = 9
+const c15FixN = 10
 
 func c15Fixture(c *c15ctx, kind int, s1, s2 string, i1, i3 int, preDef bool) {
 	r := c.r
@@ -171,6 +171,15 @@ func c15Fixture(c *c15ctx, kind int, s1, s2 string, i1, i3 int, preDef bool) {
 			pre = jfx.EmbedsOthersMutable{Meta: &jfx.Meta{ID: "pre"}, Labels: jfx.Labels{"p"}, Code: 7, Name: "pre"}.AsImmutable()
 		}
 		c15Run(c, v, pre, jfx.EmbedsOthersMutable{Name: "o"}.AsImmutable(), any(m), true, true)
+	case 9:
+		c.name = "@fp.Json fixture Graded (field types with pointer-receiver marshallers only)"
+		m := jfx.GradedMutable{Level: jfx.Level(i1), Grade: jfx.Grade{N: i3}, Pair: [2]jfx.Level{jfx.Level(i3), 2}, Name: s1}
+		v := m.AsImmutable()
+		pre := jfx.Graded{}
+		if preDef {
+			pre = jfx.GradedMutable{Level: 9, Grade: jfx.Grade{N: 9}, Pair: [2]jfx.Level{8, 8}, Name: "pre"}.AsImmutable()
+		}
+		c15Run(c, v, pre, jfx.GradedMutable{Name: "o"}.AsImmutable(), any(m), true, true)
 	default:
 		c.name = "@fp.Json fixture Outer (nested @fp.Json values, slices and maps of them)"
 		m := jfx.OuterMutable{Inner: plain(s1, i1), Wo: withOpt(i3)}
